@@ -205,3 +205,18 @@ proofs/MaintProofs.vos proofs/MaintProofs.vok proofs/MaintProofs.required_vos: p
 properties/C14.vo properties/C14.glob properties/C14.v.beautified properties/C14.required_vo: properties/C14.v gen/Params.vo model/Bytes.vo model/Crc32c.vo model/Id.vo model/Node.vo model/BSearch.vo model/Closest.vo model/RTable.vo model/Maint.vo proofs/RTableProofs.vo proofs/MaintProofs.vo
 properties/C14.vio: properties/C14.v gen/Params.vio model/Bytes.vio model/Crc32c.vio model/Id.vio model/Node.vio model/BSearch.vio model/Closest.vio model/RTable.vio model/Maint.vio proofs/RTableProofs.vio proofs/MaintProofs.vio
 properties/C14.vos properties/C14.vok properties/C14.required_vos: properties/C14.v gen/Params.vos model/Bytes.vos model/Crc32c.vos model/Id.vos model/Node.vos model/BSearch.vos model/Closest.vos model/RTable.vos model/Maint.vos proofs/RTableProofs.vos proofs/MaintProofs.vos
+model/NetModel.vo model/NetModel.glob model/NetModel.v.beautified model/NetModel.required_vo: model/NetModel.v 
+model/NetModel.vio: model/NetModel.v 
+model/NetModel.vos model/NetModel.vok model/NetModel.required_vos: model/NetModel.v 
+model/Check13.vo model/Check13.glob model/Check13.v.beautified model/Check13.required_vo: model/Check13.v model/NetModel.vo
+model/Check13.vio: model/Check13.v model/NetModel.vio
+model/Check13.vos model/Check13.vok model/Check13.required_vos: model/Check13.v model/NetModel.vos
+proofs/NetProofs.vo proofs/NetProofs.glob proofs/NetProofs.v.beautified proofs/NetProofs.required_vo: proofs/NetProofs.v model/NetModel.vo
+proofs/NetProofs.vio: proofs/NetProofs.v model/NetModel.vio
+proofs/NetProofs.vos proofs/NetProofs.vok proofs/NetProofs.required_vos: proofs/NetProofs.v model/NetModel.vos
+properties/C13.vo properties/C13.glob properties/C13.v.beautified properties/C13.required_vo: properties/C13.v model/NetModel.vo proofs/NetProofs.vo
+properties/C13.vio: properties/C13.v model/NetModel.vio proofs/NetProofs.vio
+properties/C13.vos properties/C13.vok properties/C13.required_vos: properties/C13.v model/NetModel.vos proofs/NetProofs.vos
+properties/C01.vo properties/C01.glob properties/C01.v.beautified properties/C01.required_vo: properties/C01.v model/NetModel.vo proofs/NetProofs.vo
+properties/C01.vio: properties/C01.v model/NetModel.vio proofs/NetProofs.vio
+properties/C01.vos properties/C01.vok properties/C01.required_vos: properties/C01.v model/NetModel.vos proofs/NetProofs.vos
